@@ -84,7 +84,7 @@ func (t Text) Concat(rhs any) (any, error) {
 	case int, *big.Int, *big.Rat, float64:
 		return Concat(t, T(vals.ToString(rhs))), nil
 	case *Segment:
-		return Concat(t, Text{rhs}), nil
+		return Concat(t, TextFromSegment(rhs)), nil
 	case Text:
 		return Concat(t, rhs), nil
 	}
@@ -134,6 +134,9 @@ func (t Text) Partition(indices ...int) []Text {
 
 // Clone returns a deep copy of Text.
 func (t Text) Clone() Text {
+	if len(t) == 0 {
+		return nil
+	}
 	newt := make(Text, len(t))
 	for i, seg := range t {
 		newt[i] = seg.Clone()
